@@ -82,7 +82,14 @@ def decode_case(prop_id, data):
         hist = []
         while fdp.remaining_bytes() >= 2 and len(hist) < 20:
             hist.append([fdp.ConsumeIntInRange(0, 7), fdp.ConsumeIntInRange(0, 5)])
-        return {"mode": "sequence", "inst": inst, "history": hist, "stop": None if stop == 17 else stop}
+        fk = fdp.ConsumeIntInRange(0, 9)
+        return {
+            "mode": "sequence",
+            "inst": inst,
+            "history": hist,
+            "stop": None if stop == 17 else stop,
+            "fork": fk if fk < 6 else None,
+        }
     if prop_id == "C05":
         filters = decode_filters(fdp)
         inst = decode_instance(fdp)
@@ -104,7 +111,16 @@ def decode_case(prop_id, data):
         hist = []
         while fdp.remaining_bytes() >= 2 and len(hist) < 20:
             hist.append([fdp.ConsumeIntInRange(0, 7), fdp.ConsumeIntInRange(0, 5)])
-        return {"inst": inst, "filters": filters, "history": hist}
+        pre = fdp.ConsumeIntInRange(0, 8)
+        fk = fdp.ConsumeIntInRange(0, 9)
+        return {
+            "inst": inst,
+            "filters": filters,
+            "history": hist,
+            "pre": pre,
+            "blind": fdp.ConsumeBool(),
+            "fork": fk if fk < 5 else None,
+        }
     if prop_id == "C07":
         n = fdp.ConsumeIntInRange(1, 4)
         comp = [[NAMES[fdp.ConsumeIntInRange(0, 3)], fdp.ConsumeIntInRange(0, 2)] for _ in range(n)]
@@ -113,7 +129,7 @@ def decode_case(prop_id, data):
         hist = []
         while fdp.remaining_bytes() >= 3 and len(hist) < 20:
             hist.append([fdp.ConsumeIntInRange(0, 7), fdp.ConsumeIntInRange(0, 5), fdp.ConsumeIntInRange(0, 3)])
-        return {"inst": inst, "comp": comp, "history": hist, "masks": masks}
+        return {"inst": inst, "comp": comp, "history": hist, "masks": masks, "nest": fdp.ConsumeIntInRange(0, 2)}
     raise ValueError(prop_id)
 
 
